@@ -8,6 +8,7 @@ CONSTANTS
   TxSkip = "return"
   AssumeSnapshot = TRUE
   NSet = {1}
+  NSet2 = {1}
   WantSet = {"me", "other"}
   FReqSet = {0}
   FHashSet = {0}
